@@ -226,7 +226,7 @@ def _genexp_to_yield(fn: ast.FunctionDef) -> None:
 
 
 class Inliner:
-    def __init__(self, tree: ast.Module):
+    def __init__(self, tree: ast.Module, extra: dict | None = None):
         self.tree = tree
         self.helpers: dict[tuple[str | None, str], _Helper] = {}
         self.count = 0
@@ -240,6 +240,13 @@ class Inliner:
                 for m in n.body:
                     if isinstance(m, ast.FunctionDef) and _Helper.eligible(m, n.name):
                         self.helpers[(n.name, m.name)] = _Helper(m, n.name)
+        # private helpers a class of this module inherits from a base class defined in another module
+        for (cls, name), fn in (extra or {}).items():
+            if (cls, name) not in self.helpers:
+                fn = copy.deepcopy(fn)
+                _genexp_to_yield(fn)
+                if _Helper.eligible(fn, cls):
+                    self.helpers[(cls, name)] = _Helper(fn, cls)
 
     # ------------------------------------------------------------------------------------------ resolution
     def resolve(self, call: ast.Call, cls: str | None):
@@ -638,5 +645,54 @@ def _renumber(stmts: list[ast.stmt], base, col: int) -> None:
         visit(s)
 
 
-def inline_private_helpers(tree: ast.Module) -> int:
-    return Inliner(tree).run()
+def inline_private_helpers(tree: ast.Module, extra: dict | None = None) -> int:
+    return Inliner(tree, extra).run()
+
+
+def inherited_helpers(raw: dict[str, ast.Module]) -> dict[str, dict]:
+    """path -> {(class of that module, helper name): FunctionDef of a base class in *another* module}.  Only helpers whose free names
+    the inheriting module binds as well (same imports / module-level names), so that the copy means the same there."""
+    import builtins
+    where: dict[str, tuple[str, ast.ClassDef]] = {}
+    for path, tree in raw.items():
+        for n in tree.body:
+            if isinstance(n, ast.ClassDef):
+                where.setdefault(n.name, (path, n))
+
+    def module_names(tree):
+        out = set(dir(builtins))
+        for st in tree.body:
+            if isinstance(st, (ast.FunctionDef, ast.AsyncFunctionDef, ast.ClassDef)):
+                out.add(st.name)
+            elif isinstance(st, (ast.Import, ast.ImportFrom)):
+                out |= {(a.asname or a.name).split(".")[0] for a in st.names}
+            else:
+                out |= {x.id for x in ast.walk(st) if isinstance(x, ast.Name) and isinstance(x.ctx, ast.Store)}
+        return out
+    res: dict[str, dict] = {}
+    for path, tree in raw.items():
+        names = None
+        for c in tree.body:
+            if not isinstance(c, ast.ClassDef):
+                continue
+            own = {m.name for m in c.body if isinstance(m, (ast.FunctionDef, ast.AsyncFunctionDef))}
+            seen, todo = set(), [b.id for b in c.bases if isinstance(b, ast.Name)]
+            while todo:
+                b = todo.pop(0)
+                if b in seen or b not in where:
+                    continue
+                seen.add(b)
+                bpath, bnode = where[b]
+                todo += [x.id for x in bnode.bases if isinstance(x, ast.Name)]
+                if bpath == path:
+                    continue
+                for m in bnode.body:
+                    if isinstance(m, ast.FunctionDef) and m.name.startswith("_") and not m.name.startswith("__") and m.name not in own:
+                        if names is None:
+                            names = module_names(tree)
+                        local = {x.id for x in ast.walk(m) if isinstance(x, ast.Name) and isinstance(x.ctx, ast.Store)} | {a.arg for a in ast.walk(m.args) if isinstance(a, ast.arg)}
+                        free = {x.id for x in ast.walk(m) if isinstance(x, ast.Name) and isinstance(x.ctx, ast.Load)} - local
+                        if free <= names:
+                            res.setdefault(path, {})[(c.name, m.name)] = m
+                            own.add(m.name)
+    return res
